@@ -162,16 +162,17 @@ def check_records(case, rows, primal, tangents, direction_idx, what="jvp_estimat
         ctx.count("records_missing")
         return None
     best = None
+    primal_ok = []  # every assignment of tap records to enumeration paths that explains the primal
     for ch in cands:
         try:
             exp_p, pscale = pm.primal_only(ch)
         except R.Ambiguous:
             continue
         ok = abs(float(primal) - exp_p) <= tol_for(exp_p, pscale)
-        if best is None or ok:
+        if best is None or (ok and not best[3]):
             best = (ch, exp_p, pscale, ok)
         if ok:
-            break
+            primal_ok.append((ch, exp_p, pscale))
     if best is None:
         ctx.count("records_ambiguous")
         return None
@@ -188,20 +189,28 @@ def check_records(case, rows, primal, tangents, direction_idx, what="jvp_estimat
         )
         return None
     if tangents and case.det_ok:
-        try:
-            _, exp_t, _, tscales = pm.primal_and_tangents(ch)
-        except R.Ambiguous:
-            ctx.count("records_ambiguous")
-            return ch
-        for i, got in tangents.items():
-            ctx.count("det_tangent_checks")
-            if not np.isfinite(exp_t[i]):
-                continue
-            if not abs(float(got) - exp_t[i]) <= tol_for(exp_t[i], tscales[i] + pscale):
-                ctx.violation(
-                    f"C29|op=jvp_estimate|on={case.label}|field=tangent|cond={case.struct_det}",
-                    **case.witness(detail=f"tangent for d/dtheta{i} is {float(got)!r}; exact enumeration / pathwise derivative for the observed noise is {exp_t[i]!r}", records=rows[:8], observed=float(got), expected=exp_t[i], direction=i),
-                )
+        # a vmapped continuation (enum_parallel) runs both branches of a guarded site, so one
+        # enumeration path can have several tap records; the primal alone may not tell them apart:
+        # the tangents are judged against every record assignment that explains the primal
+        first_bad = None
+        for ch, exp_p, pscale in primal_ok:
+            try:
+                _, exp_t, _, tscales = pm.primal_and_tangents(ch)
+            except R.Ambiguous:
+                ctx.count("records_ambiguous")
+                return ch
+            bad = [(i, got, exp_t[i]) for i, got in tangents.items()
+                   if np.isfinite(exp_t[i]) and not abs(float(got) - exp_t[i]) <= tol_for(exp_t[i], tscales[i] + pscale)]
+            if not bad:
+                ctx.count("det_tangent_checks", len(tangents))
+                return (pm, ch)
+            first_bad = first_bad or bad
+        ctx.count("det_tangent_checks", len(tangents))
+        for i, got, exp in first_bad or []:
+            ctx.violation(
+                f"C29|op=jvp_estimate|on={case.label}|field=tangent|cond={case.struct_det}",
+                **case.witness(detail=f"tangent for d/dtheta{i} is {float(got)!r}; exact enumeration / pathwise derivative for the observed noise is {exp!r} (no assignment of the {len(primal_ok)} record candidates matches)", records=rows[:8], observed=float(got), expected=exp, direction=i),
+            )
     return (pm, ch)
 
 
